@@ -80,6 +80,10 @@ func (g *evGen) helper(d int) *evElem {
 		for k := 0; k < g.r.Intn(3); k++ {
 			alt.Sub = append(alt.Sub, g.elem(d-1))
 		}
+		if last := alt.Sub[len(alt.Sub)-1]; last.nullable() && last.hasArrow() {
+			// "reporting empty ranges at the end of a rule is not allowed": close the alternative with a terminal
+			alt.Sub = append(alt.Sub, g.term())
+		}
 		if g.r.Intn(2) == 0 { // the alternative ends with a nullable list
 			alt.Sub = append(alt.Sub, &evElem{K: "list", Sub: []*evElem{g.term()}})
 		}
@@ -96,6 +100,18 @@ func (g *evGen) helper(d int) *evElem {
 
 func (g *evGen) term() *evElem { g.nextT++; return &evElem{K: "sym", T: g.nextT - 1} }
 func (g *evGen) node() string  { g.nextN++; return fmt.Sprintf("A%d", g.nextN) }
+
+func (e *evElem) hasArrow() bool {
+	if e.K == "arrow" || e.K == "twin" {
+		return true
+	}
+	for _, s := range e.Sub {
+		if s.hasArrow() {
+			return true
+		}
+	}
+	return false
+}
 
 func (e *evElem) nullable() bool {
 	switch e.K {
